@@ -31,7 +31,17 @@ pub fn bin(profile: &str) -> Option<String> {
     std::env::var(var).ok().filter(|p| std::path::Path::new(p).exists())
 }
 
+/// Run the command; a run that exceeds 30 s of wall-clock is repeated once with a 180 s limit, so that a starved
+/// machine is not mistaken for a hanging command (a 3 ms process that is still running after 180 s is hanging).
 pub fn run(bin: &str, rule_text: &str, channel: &Channel) -> Result<CliOut, String> {
+    let first = run_limited(bin, rule_text, channel, 30)?;
+    if first.timed_out {
+        return run_limited(bin, rule_text, channel, 180);
+    }
+    Ok(first)
+}
+
+fn run_limited(bin: &str, rule_text: &str, channel: &Channel, limit_s: u64) -> Result<CliOut, String> {
     let mut cmd = Command::new(bin);
     cmd.arg(rule_text);
     let stdin_text: Option<(&str, Option<(usize, u64)>)> = match channel {
@@ -86,7 +96,7 @@ pub fn run(bin: &str, rule_text: &str, channel: &Channel) -> Result<CliOut, Stri
         match child.try_wait() {
             Ok(Some(st)) => break st,
             Ok(None) => {
-                if started.elapsed() > Duration::from_secs(30) {
+                if started.elapsed() > Duration::from_secs(limit_s) {
                     timed_out = true;
                     let _ = child.kill();
                     break child.wait().map_err(|e| e.to_string())?;
